@@ -525,6 +525,59 @@ def release_rule(row):
 release_rule.released = {}
 
 
+def live_release_rule(row):
+    """LIVE-RESYNC PROBE (terminal `liveprobe` step: channel_reestablish processed by the
+    LIVE in-memory objects, which may hold an accepted but not yet revoked = not durable
+    commitment).  C06 release rule on reconnect: every per-commitment secret a returned
+    revoke_and_ack carries belongs to a height h with a NEWER commitment already durable
+    (LocalCommitment.CommitHeight of a fresh DB fetch right after the call > h), and it is a
+    retransmission of the LATEST release (h = number of own revocations so far - 1) - a
+    resync never releases a new secret.  Between two honest peers the probe must not end in
+    a data-loss / cannot-sync verdict; other errors are only counted (live_release_rule.errors)."""
+    fails = []
+    st_ = live_release_rule.stats
+    prev = {p: row["init"][p] for p in PARTIES}
+    for i, st in enumerate(row["steps"]):
+        if st["op"][0] == "liveprobe":
+            pr = (st.get("extra") or {}).get("probe") or {}
+            st_["probes"] = st_.get("probes", 0) + 1
+            for p in PARTIES:
+                x = pr.get(p)
+                if not x:
+                    continue
+                n_rel = prev[p]["ltail"]["h"]       # own revocations so far = local tail height
+                for h in x.get("rev_heights") or []:
+                    st_["revs"] = st_.get("revs", 0) + 1
+                    dur = x.get("durable_after")
+                    what = "%s (%s object, local tip-tail=%s) answered the peer's channel_reestablish %s " \
+                           "with a revoke_and_ack carrying the secret of height %s" \
+                           % (p, "live" if x.get("live") else "reloaded", x.get("tip_minus_tail"),
+                              (pr.get(peer(p)) or {}).get("sync"), h)
+                    if h < 0:
+                        fails.append("step %d: %s - not a secret of its own chain" % (i, what))
+                    elif dur is None or not dur > h:
+                        fails.append("step %d: %s while its durable local commitment height is %s: the secret "
+                                     "of its only durable commitment is released" % (i, what, dur))
+                    elif h != n_rel - 1:
+                        fails.append("step %d: %s, but it has revoked %d commitments so far (expected a "
+                                     "retransmission for height %d)" % (i, what, n_rel, n_rel - 1))
+                e = x.get("err")
+                if e:
+                    live_release_rule.errors[e] = live_release_rule.errors.get(e, 0) + 1
+                    if _hard(e):
+                        fails.append("step %d: live resync probe: %s (%s object, local tip-tail=%s, peer sent %s): %s"
+                                     % (i, p, "live" if x.get("live") else "reloaded", x.get("tip_minus_tail"),
+                                        (pr.get(peer(p)) or {}).get("sync"), e))
+        for p in PARTIES:
+            if isinstance(st.get(p), dict) and "ltail" in st[p]:
+                prev[p] = st[p]
+    return fails
+
+
+live_release_rule.stats = {}
+live_release_rule.errors = {}
+
+
 # ---------------------------------------------------------------------------
 # honest peers never see these
 
@@ -562,7 +615,7 @@ def _bad_result(op, res):
         return res not in PROTOCOL_OUTCOMES
     if k in RESTARTS:
         return res in ("reload_failed", "sync_failed")
-    if k in ("crash", "side"):
+    if k in ("crash", "side", "liveprobe"):
         return True
     return False
 
@@ -1246,6 +1299,7 @@ PREDICATES = [
     ("balance_moves_only_by_htlc", balance_moves_only_by_htlc),
     ("window", window),
     ("release_rule", release_rule),
+    ("live_release_rule", live_release_rule),
     ("no_errors", no_errors),
     ("rejected_no_change", rejected_no_change),
     ("reload_consistent", reload_consistent),
@@ -1277,6 +1331,7 @@ def histograms(rows):
     """op / result / chan-type / cut statistics for ctx.cov."""
     ops, types, aborted, kinds, sync = {}, {}, {}, {}, {}
     backends, ntx, crashin = {}, {}, {}
+    lp_states, lp_out = {}, {}
     heights = []
     nsteps = 0
     for r in rows:
@@ -1302,6 +1357,17 @@ def histograms(rows):
                 k = st["op"][0] if st["op"][0] != "deliver" else "deliver_" + str(ex.get("kind"))
                 k = "%s:%d" % (k, ex["ntx"])
                 ntx[k] = ntx.get(k, 0) + 1
+            if st["op"][0] == "liveprobe" and ex.get("probe"):
+                pr = ex["probe"]
+                k = "%s A tip-tail=%s B tip-tail=%s queues %s" % (
+                    st["op"][1] if len(st["op"]) > 1 else "ll", (pr.get("a") or {}).get("tip_minus_tail"),
+                    (pr.get("b") or {}).get("tip_minus_tail"),
+                    "empty" if not any(ex.get("queues") or []) else "non-empty")
+                lp_states[k] = lp_states.get(k, 0) + 1
+                for p in PARTIES:
+                    x = pr.get(p) or {}
+                    k = "err:%s" % x["err"] if x.get("err") else (",".join(x.get("kinds") or []) or "-")
+                    lp_out[k] = lp_out.get(k, 0) + 1
             if st["op"][0] == "crashin" and "committed" in ex:
                 k = "%s%s k=%s committed=%s%s [%s]" % (
                     st["op"][2], "_" + ex["kind"] if ex.get("kind") else "", _kstr(st["op"][3]),
@@ -1314,6 +1380,7 @@ def histograms(rows):
     heights.sort()
     return {"cases": len(rows), "steps": nsteps, "chan_types": types, "op_results": ops,
             "delivered_kinds": kinds, "resync_retransmissions": sync, "aborted": aborted,
+            "liveprobe_states": lp_states, "liveprobe_answers": lp_out,
             "kvdb_backends": backends, "rw_transactions_per_call": ntx, "write_level_crashes": crashin,
             "min_final_height_median": heights[len(heights) // 2] if heights else None,
             "min_final_height_min": heights[0] if heights else None}
